@@ -539,7 +539,7 @@ def mutants(repo):
     return [
         Mutant('parsing-error-without-node', lambda r: in_func(r, 'yaml.parse', "raise errors.ParsingError(str(e), node=None, path=None) from e", "raise errors.ParsingError(str(e), path=None) from e"), ['C01.R6']),
         Mutant('metadata-end-not-found', lambda r: in_func(r, 'yaml._get_metadata_end', "        if end == -1:", "        if end != -1:"), ['C01.R7']),
-        Mutant('mapping-arguments-dropped', lambda r: in_func(r, 'yaml._make_node', "        kwargs.update(data)\n", ""), ['C01.R1c']),
+        Mutant('mapping-arguments-dropped', lambda r: in_func(r, 'yaml._make_node', "        kwargs.update(data)\n        return node_type(**kwargs)", "        return node_type(**kwargs)"), ['C01.R1c']),
         Mutant('namespace-members-stay-on-class', lambda r: in_func(r, 'NamespaceableMeta.__init__', "                    delattr(cls, name)\n", "                    pass\n"), ['C01.R10']),
         Mutant('metadata-fields-not-extracted', lambda r: in_func(r, 'yaml._decode_metadata', "        if special in metadata:", "        if special not in metadata:"), ['C01.R2']),
         Mutant('typed-evaluation-paths', lambda r: in_func(r, 'EvalContext.evaluate_node', "NodePath.get_list_path(prefix, check_types=False)", "NodePath.get_list_path(prefix)"), ['C01.R9']),
@@ -547,7 +547,7 @@ def mutants(repo):
         Mutant('F19-reverted-full-list-refill', lambda r: in_func(r, 'AwesomeyamlLoader.construct_object', "lambda v: aynode.extend(v[len(aynode):])", "aynode.extend"), ['C01.R1d']),
         Mutant('F1-and-F19-reverted', lambda r: {'awesomeyaml/yaml.py': in_func(r, 'AwesomeyamlLoader.construct_object', "lambda v: aynode.extend(v[len(aynode):])", "aynode.extend")['awesomeyaml/yaml.py'].replace("if not deep and not self.deep_construct and value is not aynode:", "if not deep and value is not aynode:")}, ['C01.R1']),
         Mutant('neutral-F1-guard-redundant-with-tail-filler', lambda r: in_func(r, 'AwesomeyamlLoader.construct_object', "if not deep and not self.deep_construct and value is not aynode:", "if not deep and value is not aynode:"), neutral=True),
-        Mutant('sequence-filler-dropped', lambda r: in_func(r, 'AwesomeyamlLoader.construct_object', "            if isinstance(node, yaml.SequenceNode):\n                self.state_generators.append(self._make_generator(value, aynode.extend))\n            elif isinstance(node, yaml.MappingNode):", "            if isinstance(node, yaml.MappingNode):"), ['C01.R1b']),
+        Mutant('sequence-filler-dropped', lambda r: in_func(r, 'AwesomeyamlLoader.construct_object', "self.state_generators.append(self._make_generator(value, lambda v: aynode.extend(v[len(aynode):])))", "pass"), ['C01.R1b']),
         Mutant('mapping-filled-with-extend', lambda r: in_func(r, 'AwesomeyamlLoader.construct_object', "self._make_generator(value, aynode.update)", "self._make_generator(value, aynode.extend)"), ['C01.R1b']),
         Mutant('tagged-mapping-constructed-lazily', lambda r: in_func(r, 'yaml._make_node', "loader.construct_mapping(node, deep=True)", "loader.construct_mapping(node)"), ['C01.R1c']),
         Mutant('weak-tag-builds-list', lambda r: in_func(r, 'yaml._weak_constructor', "kwargs={ 'priority': ConfigNode.WEAK })", "kwargs={ 'priority': ConfigNode.WEAK }, parse_scalars=False)"), ['C01.R2']),
